@@ -86,7 +86,10 @@ Variable wg : Type.          (* ana_gotatun::noise::Tunn *)
 Variable pkt : Type.         (* a datagram from the network (after the rate limiter) *)
 Variable payload : Type.     (* a tunnelled SCION packet *)
 Variable wg_new : ident -> wg.                          (* Tunn::new(.., peer_static, ..) *)
-Variable wg_in : wg -> pkt -> wg * option payload.      (* Tunn::handle_incoming_packet: Some = WriteToTunnel *)
+Variable wg_in : wg -> pkt -> wg * option payload * list pkt.
+        (* handle_incoming_and_drain_queue: Tunn::handle_incoming_packet (Some = WriteToTunnel)
+           and everything pushed to `send_to_network`: the WriteToNetwork answer and the
+           drained queue of outbound packets (`get_queued_packets`) *)
 Variable wg_out : wg -> payload -> wg * option pkt.     (* Tunn::handle_outgoing_packet *)
 Variable wg_tick : wg -> wg * bool.                     (* update_timers, then is_expired *)
 Variable hs_peer : pkt -> option ident.                 (* HandshakeInit that parse_handshake_anon
@@ -112,37 +115,40 @@ Inductive event :=
 
 Inductive output :=
 | ORegistered (was_new : bool)
-| OForwarded (a : addr) (session_of : ident) (pl : payload)    (* HandleIncomingPacketResult::Forwarded *)
-| OEncrypted (a : addr) (session_of : ident) (p : option pkt)  (* handle_outgoing.. = Some{network_packet} *)
-| ODone                     (* Result{Done / other tunnel result}: nothing forwarded *)
+| OIncoming (a : addr) (session_of : ident) (fwd : option payload) (sent : list pkt)
+      (* the packet reached the tunnel of an authorised peer.  fwd = Some pl:
+         HandleIncomingPacketResult::Forwarded{packet = pl, session_data of session_of};
+         fwd = None: Result{..}.  sent: datagrams queued for the remote address *)
+| OEncrypted (a : addr) (session_of : ident) (p : option pkt)  (* handle_outgoing.. = Some{network_packet = p} *)
 | OUnauthorized             (* Err(UnexpectedPacket): peer not authorised *)
 | OInvalid                  (* Err(InvalidPacket): no tunnel and not a handshake init *)
 | ONoTunnel                 (* handle_outgoing: None, no tunnel for the address *)
 | ODroppedOut               (* handle_outgoing: None, peer not authorised *)
 | ONothing.
 
-(** incoming_packet_result after handle_incoming_and_drain_queue *)
-Definition incoming_result (a : addr) (id : ident) (r : option payload) : output :=
+(** incoming_packet_result after handle_incoming_and_drain_queue
+    (`WriteToTunnel(p) if p.is_empty() => Done`) *)
+Definition incoming_result (a : addr) (id : ident) (r : option payload) (sent : list pkt) : output :=
   match r with
-  | Some pl => if is_keepalive pl then ODone else OForwarded a id pl
-  | None => ODone
+  | Some pl => if is_keepalive pl then OIncoming a id None sent else OIncoming a id (Some pl) sent
+  | None => OIncoming a id None sent
   end.
 
 Definition handle_incoming (s : state) (a : addr) (p : pkt) : state * output :=
   match tunnels s a with
   | Some t =>                                         (* Entry::Occupied *)
     if is_authorized (reg s) (now s) (peer_static t) then
-      let '(w', r) := wg_in (tunn t) p in
+      let '(w', r, sent) := wg_in (tunn t) p in
       (mkState (reg s) (upd (tunnels s) a (Some (mkTunnel (peer_static t) w'))) (now s),
-       incoming_result a (peer_static t) r)
+       incoming_result a (peer_static t) r sent)
     else (s, OUnauthorized)
   | None =>
     match hs_peer p with
     | Some x =>                                       (* (Vacant, HandshakeInit) *)
       if is_authorized (reg s) (now s) x then
-        let '(w', r) := wg_in (wg_new x) p in
+        let '(w', r, sent) := wg_in (wg_new x) p in
         (mkState (reg s) (upd (tunnels s) a (Some (mkTunnel x w'))) (now s),
-         incoming_result a x r)
+         incoming_result a x r sent)
       else (s, OUnauthorized)
     | None => (s, OInvalid)
     end
@@ -199,25 +205,37 @@ Arguments mkState {wg}. Arguments reg {wg}. Arguments tunnels {wg}. Arguments no
 Arguments state0 {wg}.
 Arguments ERegister {pkt payload}. Arguments EAdvance {pkt payload}. Arguments EPurge {pkt payload}.
 Arguments EPacketIn {pkt payload}. Arguments EPacketOut {pkt payload}. Arguments ETick {pkt payload}.
-Arguments ORegistered {pkt payload}. Arguments OForwarded {pkt payload}. Arguments OEncrypted {pkt payload}.
-Arguments ODone {pkt payload}. Arguments OUnauthorized {pkt payload}. Arguments OInvalid {pkt payload}.
+Arguments ORegistered {pkt payload}. Arguments OIncoming {pkt payload}. Arguments OEncrypted {pkt payload}.
+Arguments OUnauthorized {pkt payload}. Arguments OInvalid {pkt payload}.
 Arguments ONoTunnel {pkt payload}. Arguments ODroppedOut {pkt payload}. Arguments ONothing {pkt payload}.
 
 (** * A toy WireGuard: an authenticated channel in which every datagram names its sender in
-    clear.  An endpoint created for peer X remembers X and whether a handshake from X was
-    seen; it opens a data packet only if it comes from X and a session exists. *)
-Inductive toy_pkt := THandshake (from : ident) | TData (from : ident) (body : list N) | TJunk.
-Record toy_wg := mkToy { toy_peer : ident; toy_session : bool; toy_idle : N }.
-Definition toy_new (x : ident) : toy_wg := mkToy x false 0.
-Definition toy_in (w : toy_wg) (p : toy_pkt) : toy_wg * option (list N) :=
+    clear.  An endpoint created for peer X remembers X, whether a handshake from X was seen
+    (it can then open X's data packets), whether X's use of the session was confirmed by a
+    data packet (it can then send), and the outbound payloads queued meanwhile. *)
+Inductive toy_pkt :=
+| THandshake (from : ident) | TResponse | TData (from : ident) (body : list N) | TInitBack | TJunk.
+Record toy_wg := mkToy {
+  toy_peer : ident; toy_session : bool; toy_confirmed : bool; toy_queue : list (list N); toy_idle : N }.
+Definition toy_new (x : ident) : toy_wg := mkToy x false false [] 0.
+Definition toy_in (w : toy_wg) (p : toy_pkt) : toy_wg * option (list N) * list toy_pkt :=
   match p with
-  | THandshake f => if f =? toy_peer w then (mkToy (toy_peer w) true 0, None) else (w, None)
-  | TData f b => if (f =? toy_peer w) && toy_session w then (mkToy (toy_peer w) true 0, Some b) else (w, None)
-  | TJunk => (w, None)
+  | THandshake f =>
+    if f =? toy_peer w then (mkToy (toy_peer w) true (toy_confirmed w) (toy_queue w) 0, None, [TResponse])
+    else (w, None, [])
+  | TData f b =>
+    if (f =? toy_peer w) && toy_session w
+    then (mkToy (toy_peer w) true true [] 0, Some b, map (TData (toy_peer w)) (toy_queue w))
+    else (w, None, [])
+  | _ => (w, None, [])
   end.
 Definition toy_out (w : toy_wg) (b : list N) : toy_wg * option toy_pkt :=
-  if toy_session w then (w, Some (TData (toy_peer w) b)) else (w, None).
+  if toy_confirmed w then (w, Some (TData (toy_peer w) b))
+  else (mkToy (toy_peer w) (toy_session w) false (toy_queue w ++ [b]) (toy_idle w),
+        match toy_queue w with [] => Some TInitBack | _ => None end).
+Definition TOY_IDLE_LIMIT : N := 1000.
 Definition toy_tick (w : toy_wg) : toy_wg * bool :=
-  (mkToy (toy_peer w) (toy_session w) (toy_idle w + 1), 3 <=? toy_idle w).
+  (mkToy (toy_peer w) (toy_session w) (toy_confirmed w) (toy_queue w) (toy_idle w + 1),
+   TOY_IDLE_LIMIT <=? toy_idle w).
 Definition toy_hs (p : toy_pkt) : option ident := match p with THandshake f => Some f | _ => None end.
 Definition toy_keepalive (b : list N) : bool := match b with [] => true | _ => false end.
